@@ -161,6 +161,72 @@ Theorem C05_rows_2d_zero :
 Proof. exact rows_2d_zero. Qed.
 Print Assumptions C05_rows_2d_zero.
 
+(** (c) perturb with e = T_out y, then correct with y: the state is restored to first order *)
+Theorem C05_perturb_then_correct_3d :
+  forall lat lon alt VN VE VD roll pitch heading y0 y1 y2 y3 y4 y5 y6 y7 y8 : R,
+       -90 < lat < 90 ->
+       -1000000 <= alt ->
+       -180 < roll < 180 ->
+       -90 < pitch < 90 ->
+       -180 < heading < 180 ->
+       let RS :=
+         fun d : R -> R -> R -> R -> R -> R -> R -> R -> R -> R -> R -> R -> R -> R -> R -> R -> R -> R -> R
+         => restore3 d lat lon alt VN VE VD roll pitch heading y0 y1 y2 y3 y4 y5 y6 y7 y8 in
+       is_derive (RS state_diff_north) 0 0 /\
+       is_derive (RS state_diff_east) 0 0 /\
+       is_derive (RS state_diff_down) 0 0 /\
+       is_derive (RS state_diff_VN) 0 0 /\
+       is_derive (RS state_diff_VE) 0 0 /\
+       is_derive (RS state_diff_VD) 0 0 /\
+       is_derive (RS state_diff_roll) 0 0 /\
+       is_derive (RS state_diff_pitch) 0 0 /\ is_derive (RS state_diff_heading) 0 0.
+Proof. exact perturb_then_correct_3d. Qed.
+Print Assumptions C05_perturb_then_correct_3d.
+
+(** (c) perturb with e = T_out y, then correct with y: the state is restored to first order *)
+Theorem C05_perturb_then_correct_2d :
+  forall lat lon alt VN VE VD roll pitch heading y0 y1 y2 y3 y4 y5 y6 : R,
+       -90 < lat < 90 ->
+       -1000000 <= alt ->
+       -180 < roll < 180 ->
+       -90 < pitch < 90 ->
+       -180 < heading < 180 ->
+       let RS :=
+         fun d : R -> R -> R -> R -> R -> R -> R -> R -> R -> R -> R -> R -> R -> R -> R -> R -> R -> R -> R
+         => restore2 d lat lon alt VN VE VD roll pitch heading y0 y1 y2 y3 y4 y5 y6 in
+       is_derive (RS state_diff_north) 0 0 /\
+       is_derive (RS state_diff_east) 0 0 /\
+       is_derive (RS state_diff_down) 0 0 /\
+       is_derive (RS state_diff_VN) 0 0 /\
+       is_derive (RS state_diff_VE) 0 0 /\
+       is_derive (RS state_diff_VD) 0 0 /\
+       is_derive (RS state_diff_roll) 0 0 /\
+       is_derive (RS state_diff_pitch) 0 0 /\ is_derive (RS state_diff_heading) 0 0.
+Proof. exact perturb_then_correct_2d. Qed.
+Print Assumptions C05_perturb_then_correct_2d.
+
+(** (c) perturb with e = T_out y, then correct with y: the state is restored to first order *)
+Theorem C05_perturb_then_correct_3d_any_error :
+  forall lat lon alt VN VE VD roll pitch heading E0 E1 E2 E3 E4 E5 E6 E7 E8 : R,
+       -90 < lat < 90 ->
+       -1000000 <= alt ->
+       -180 < roll < 180 ->
+       -90 < pitch < 90 ->
+       -180 < heading < 180 ->
+       let RS :=
+         fun d : R -> R -> R -> R -> R -> R -> R -> R -> R -> R -> R -> R -> R -> R -> R -> R -> R -> R -> R
+         => restore3E d lat lon alt VN VE VD roll pitch heading E0 E1 E2 E3 E4 E5 E6 E7 E8 in
+       is_derive (RS state_diff_north) 0 0 /\
+       is_derive (RS state_diff_east) 0 0 /\
+       is_derive (RS state_diff_down) 0 0 /\
+       is_derive (RS state_diff_VN) 0 0 /\
+       is_derive (RS state_diff_VE) 0 0 /\
+       is_derive (RS state_diff_VD) 0 0 /\
+       is_derive (RS state_diff_roll) 0 0 /\
+       is_derive (RS state_diff_pitch) 0 0 /\ is_derive (RS state_diff_heading) 0 0.
+Proof. exact perturb_then_correct_3d_any_error. Qed.
+Print Assumptions C05_perturb_then_correct_3d_any_error.
+
 (** non-vacuity: the hypotheses are satisfiable on a concrete, non-trivial state *)
 Example C05_domain_nonempty :
   -90 < 48 < 90 /\ -1000000 <= 350 /\ -180 < 12 < 180 /\ -90 < -8 < 90 /\ -180 < 130 < 180 /\
